@@ -73,7 +73,7 @@ def crash_key(run):
     k = santriage.asan_key(run.err)
     if run.rc in (0, 1) and k is None:
         return None
-    if run.rc in (0, 1) and k is not None and not k.startswith(("asan:", "ubsan:", "assert:", "glibcxx-assert:", "uncaught:")):
+    if run.rc in (0, 1) and k is not None and not k.startswith(("asan:", "ubsan:", "assert:", "glibcxx-assert:", "uncaught:", "signal-handler:")):
         return None
     if k is not None:
         return k
